@@ -28,8 +28,9 @@ def gen_streams(ctx):
     # exhaustive small domain, one job per configuration
     for c in cfgs.split(","):
         jobs.append(("exh", ["exh", 3 if quick else 4, 2, c]))
-    jobs.append(("sizes", ["sizes", 32 if quick else 160]))
+    jobs.append(("sizes", ["sizes", 56 if quick else 400]))
     jobs.append(("long", ["long", 8 if quick else 48]))
+    jobs.append(("far", ["far", 24 if quick else 240]))
     procs = []
     for kind, args in jobs:
         p = subprocess.Popen([core.hbin("matcher_ops")] + [str(a) for a in args], stdout=subprocess.PIPE, stderr=subprocess.PIPE, env=env)
@@ -52,7 +53,13 @@ def gen_streams(ctx):
         lines += out
         kinds[kind] = kinds.get(kind, 0) + len([l for l in out if l.startswith("M ")])
         if p.returncode != 0:
-            bad.append((kind + " " + " ".join(map(str, args)), e.decode()[-300:]))
+            err = e.decode("utf-8", "replace")
+            tail = core.ErrTail(f"[harness process exit code {p.returncode}{' (killed by signal %d)' % -p.returncode if p.returncode < 0 else ''}] " + err[-300:])
+            tail.rc = p.returncode
+            c = err.rfind("CASE M ")
+            tail.last_case = err[c + 5:].split("\n", 1)[0] if c >= 0 else None
+            tail.cmd = "matcher_ops " + " ".join(map(str, args))
+            bad.append((kind + " " + " ".join(map(str, args)), tail))
     return lines, kinds, bad
 
 
@@ -166,7 +173,7 @@ def run_matcher_check(ctx, pid, known_filter=None):
         rule="cases = (configuration, representations, haystack, needle); each case runs 6 algorithms x (score-only, indices) x "
              "(fresh, used, poisoned matcher); streams: corpus of past failures, seeded structured random (needles drawn as subsequences/"
              "substrings/trimmed copies of the normalized haystack, then perturbed), exhaustive small domain over an 8-symbol alphabet, "
-             "occurrence-rich haystacks (the needle, near misses of it and separators concatenated), size-limit shapes, long needles; distinct non-trivial = distinct cases with non-empty haystack and needle",
+             "occurrence-rich haystacks (the needle, near misses of it and separators concatenated), size-limit shapes (fixed list plus a band around the slab-fit boundary), long needles, matches starting beyond index 2^16 / 2^17; distinct non-trivial = distinct cases with non-empty haystack and needle",
         samples=[l[:300] for l in lines if l.startswith("M ")][:3] + [l for l in lines if l.startswith("X ")][:2],
         model_disagreements=len(diffs), oracle_failures=len(mine))
     ctx.assumptions += ["Rust std char::is_lowercase/is_numeric/is_alphabetic are inputs of the model",
@@ -198,8 +205,21 @@ def run_matcher_check(ctx, pid, known_filter=None):
         core.violation(ctx, part, dict(kind="oracle-on-implementation", clause=sa if isinstance(sa, str) else part,
                                        case=describe(sl), harness_line=sl[:4000], original_line=l[:2000],
                                        replay_cmd=f"./check {pid} --replay <this file>"))
+    died = [b for b in gen_bad if getattr(b[1], "rc", 0) != 0]
     if not unknown:
-        if not st["ok"]:
+        if hb_ok and died and pid == "C10":
+            # the real code took the harness process down (abort / signal; ordinary panics are caught per case and reported
+            # in the result field): for C10 (totality and memory safety of the scratch memory) that case is the failing input
+            key, err = died[0]
+            rep = dict(kind="crash-in-implementation", harness_job=key, stderr_tail=str(err)[-600:],
+                       replay_cmd=f"VERIF_SEED={ctx.seed} harness/target/release/{err.cmd}")
+            if err.last_case:
+                rep["harness_line"] = err.last_case[:400000]
+                rep["case"] = describe(err.last_case)
+            if not st["ok"]:
+                rep["proof"] = st["detail"][-800:]
+            core.violation(ctx, f"the matcher crashed the process on a generated case ({'killed by signal %d' % -err.rc if err.rc < 0 else 'exit code %d' % err.rc})", rep)
+        elif not st["ok"]:
             core.violation(ctx, f"{pid} proof obligations no longer check: " + st["detail"].strip()[:300],
                            dict(kind="proof-broken", detail=st["detail"], failed=st.get("failed_decls", []),
                                 searched=f"{n_m} cases x 6 algorithms against the property's clauses: no failing input"), no_input=True)
